@@ -603,6 +603,28 @@ fn one_request(_step: usize) -> (String, bool) {
                     check_coherence(reg.as_ptr(), size, f, offset, |d, at| rr.as_volatile_slice().write(d, at).is_ok(), &desc);
                 }
             }
+            // now and then the region is wrapped at a guest base whose end would pass the top of the
+            // address space (bases with the grant marker bit set included): refused at creation
+            if size > 0 && cx().a(5) == 0 {
+                let hi = [u64::MAX, (u64::MAX - size as u64).wrapping_add(1), u64::MAX - (size as u64 / 2), (1u64 << 63) | (u64::MAX >> 1)][cx().a(4) as usize];
+                let overflow = hi.checked_add(size as u64).is_none();
+                match catch(|| GuestRegionMmap::new(reg, GuestAddress(hi))) {
+                    OpOutcome::Ok(Ok(g)) => {
+                        if overflow {
+                            verdict("GuestRegionMmap::new", "a guest region", "InvalidGuestRegion", &format!("{} at guest base {:#x}", desc, hi));
+                        }
+                        drop(g);
+                    }
+                    OpOutcome::Ok(Err(e)) => {
+                        if !overflow || !matches!(e, vm_memory::mmap::Error::InvalidGuestRegion) {
+                            verdict("GuestRegionMmap::new", &format!("{:?}", e), if overflow { "InvalidGuestRegion" } else { "a guest region" }, &format!("{} at guest base {:#x}", desc, hi));
+                        }
+                    }
+                    OpOutcome::Panic(m) => cx().violate("C15", "C15/panic", "panic in GuestRegionMmap::new".into(), format!("{}: {}", desc, m)),
+                    OpOutcome::Sim(_) => {}
+                }
+                return (desc, true);
+            }
             match catch(|| GuestRegionMmap::new(reg, GuestAddress(base))) {
                 OpOutcome::Ok(Ok(g)) => {
                     // a device-backed region shows the guest's memory at its base
